@@ -107,7 +107,11 @@ def _once_rule(ctx):
                  and getattr(x.value.func, 'id', '') == 'scope_resolution_order']
             if d:
                 inner = n
-    if inner is None:
+    from .shared import fqn_match_form
+    okf, whyf, nodef = fqn_match_form(ctx, ff) if inner is None else (None, '', None)
+    if okf is not None:
+        run.add('C14.once', ff.module.name, ff.qualname, nodef if nodef is not None else 'match', okf, whyf, node=nodef)
+    elif inner is None:
         run.error('C14.once', ff.module.name, ff.qualname, 'resolution-order loop',
                   'no loop over the result of scope_resolution_order found in find_fqn')
     else:
@@ -169,6 +173,9 @@ def _order_rule(ctx, mut: Mutations):
     sro = prog.func('scoping', 'scope_resolution_order')
     rets = [n for n in iter_own_nodes(sro.node) if isinstance(n, ast.Return)]
     final = [r for r in rets if r is sro.node.body[-1] and isinstance(r.value, ast.Name)]
+    if len(final) != 1 and len(rets) == 1 and isinstance(rets[0].value, ast.ListComp):
+        _order_rule_prefixes(ctx, mut, sro, rets[0])
+        return
     if len(final) != 1:
         run.error('C14.order', sro.module.name, sro.qualname, 'return', 'expected a final `return <list>`')
         return
@@ -224,6 +231,89 @@ def _order_rule(ctx, mut: Mutations):
                 'one identifier is dropped from the end of the scope per step' if ok else
                 'the loop does not pop exactly the last identifier of the tested scope per step', node=w)
     run.floor('C14.order', 4)
+
+
+def _order_rule_prefixes(ctx, mut: Mutations, sro: FuncInfo, ret: ast.Return):
+    """scope_resolution_order written as ONE comprehension over the prefixes of the calling scope, longest first:
+         [NamespaceIds(items[:d] + searchable.items) for d in range(len(items), -1, -1)]              or
+         [scope + searchable for scope in <generator of the prefixes, longest first>]
+       with `items` the identifiers of the calling scope ([] when there is none)."""
+    run, prog = ctx.run, ctx.prog
+    params = [a.arg for a in sro.params()]
+    searchable, calling = params[0], params[1]
+    comp: ast.ListComp = ret.value
+
+    def local(fn: FuncInfo, nm: str):
+        d = [a.value for a in iter_own_nodes(fn.node) if isinstance(a, ast.Assign) and len(a.targets) == 1
+             and isinstance(a.targets[0], ast.Name) and a.targets[0].id == nm]
+        return d[0] if len(d) == 1 else None
+
+    def scope_items(fn: FuncInfo, e: ast.expr, scope_param: str) -> bool:
+        """`e` is `<scope>.items if <scope given> else []` (through a local)"""
+        if isinstance(e, ast.Name):
+            d = local(fn, e.id)
+            return d is not None and scope_items(fn, d, scope_param)
+        if isinstance(e, ast.IfExp):
+            t = ast.unparse(e.test)
+            given = t in (scope_param, f'{scope_param} is not None')
+            absent = t in (f'not {scope_param}', f'{scope_param} is None')
+            a, b = (e.body, e.orelse) if given else (e.orelse, e.body) if absent else (None, None)
+            return a is not None and ast.unparse(a) == f'{scope_param}.items' and isinstance(b, ast.List) and not b.elts
+        return False
+
+    def descending_prefixes(fn: FuncInfo, g: ast.comprehension, scope_param: str):
+        """g iterates d = len(items) .. 0; returns the name of `items` or None"""
+        it = g.iter
+        if isinstance(it, ast.Call) and getattr(it.func, 'id', '') == 'range' and len(it.args) == 3 and \
+                isinstance(it.args[0], ast.Call) and getattr(it.args[0].func, 'id', '') == 'len' and len(it.args[0].args) == 1 and \
+                ast.unparse(it.args[1]) == '-1' and ast.unparse(it.args[2]) == '-1' and not g.ifs and isinstance(g.target, ast.Name):
+            base = it.args[0].args[0]
+            if scope_items(fn, base, scope_param):
+                return ast.unparse(base)
+        return None
+
+    if len(comp.generators) != 1:
+        run.error('C14.order', sro.module.name, sro.qualname, ret, 'the resolution order is a nested comprehension: not modelled', node=ret)
+        return
+    g = comp.generators[0]
+    ok, why = False, ''
+    items = descending_prefixes(sro, g, calling)
+    if items is not None:
+        d = g.target.id
+        elt = ast.unparse(comp.elt)
+        ok = elt in (f'NamespaceIds({items}[:{d}] + {searchable}.items)', f'ns_ids_t({items}[:{d}] + {searchable}.items)',
+                     f'NamespaceIds({items}[:{d}]) + {searchable}')
+        why = 'candidates are the prefixes of the calling scope, longest first, each followed by the searched name' if ok else \
+            f'the candidate `{elt[:60]}` is not <prefix of the calling scope> + <searched name>'
+    elif isinstance(g.iter, ast.Call) and isinstance(g.iter.func, (ast.Name, ast.Attribute)) and not g.ifs and isinstance(g.target, ast.Name):
+        gen = prog.resolve_expr_symbol(sro.module, g.iter.func)
+        if isinstance(gen, FuncInfo) and len(g.iter.args) == 1 and ast.unparse(g.iter.args[0]) == calling and gen.params():
+            gp = gen.params()[0].arg
+            loops = [x for x in gen.node.body if isinstance(x, ast.For)]
+            yields = [y for y in ast.walk(gen.node) if isinstance(y, (ast.Yield, ast.YieldFrom))]
+            if len(loops) == 1 and len(yields) == 1 and isinstance(yields[0], ast.Yield) and len(loops[0].body) == 1 and \
+                    isinstance(loops[0].target, ast.Name):
+                fake = ast.comprehension(target=loops[0].target, iter=loops[0].iter, ifs=[], is_async=0)
+                items = descending_prefixes(gen, fake, gp)
+                dvar = loops[0].target.id
+                y_ok = items is not None and ast.unparse(yields[0].value) in (f'NamespaceIds({items}[:{dvar}])', f'ns_ids_t({items}[:{dvar}])')
+                e_ok = ast.unparse(comp.elt) == f'{g.target.id} + {searchable}'
+                ok = bool(y_ok and e_ok)
+                why = (f'{gen.name} yields the prefixes of the calling scope, longest first; each is followed by the searched name' if ok else
+                       f'{gen.name} / the candidate expression do not form <prefix, longest first> + <searched name>')
+    if not why:
+        run.error('C14.order', sro.module.name, sro.qualname, ret, 'the shape of the resolution order is not modelled', node=ret)
+        return
+    run.add('C14.order', sro.module.name, sro.qualname, ret, ok, why, node=ret)
+    bad = mut.mut_param.get(sro.fq, {})
+    run.add('C14.order', sro.module.name, sro.qualname, f'{sro.qualname}({calling})', calling not in bad,
+            'the calling scope is only read' if calling not in bad else
+            'the caller\'s calling scope is mutated: ' + ' <- '.join(bad[calling].chain()))
+    for nm in ('sorted', 'reversed'):
+        for n in iter_own_nodes(sro.node):
+            if isinstance(n, ast.Call) and getattr(n.func, 'id', '') == nm:
+                run.violation('C14.order', sro.module.name, sro.qualname, n, 'the resolution order is re-ordered', node=n)
+    run.floor('C14.order', 2)
 
 
 def regex_charsets(pattern: str):
@@ -382,8 +472,8 @@ def _valid_ids_rule(ctx, mut: Mutations) -> Optional[Set[str]]:
                 run.violation('C14.valid-ids', ev.fn.module.name, ev.fn.qualname, ev.node,
                               f'{ev.how} on `{ast.unparse(ev.receiver)[:50]}`: items of a NamespaceIds are written '
                               f'outside the validating constructor path', node=ev.node)
-    if n_w < 2:
-        run.error('C14.valid-ids', '-', '-', '.items writers', f'only {n_w} writers of NamespaceIds.items recognised (2 confirmed)')
+    if n_w < 1:
+        run.error('C14.valid-ids', '-', '-', '.items writers', f'no writer of NamespaceIds.items recognised (2 on the reference tree)')
     run.floor('C14.valid-ids', 6)
     return charset
 
